@@ -13,8 +13,13 @@ pub enum Op {
     Send { lab: Lab, mode: u8 },
     /// n successful complete packets with the same label
     Burst { lab: Lab, n: u16 },
-    /// failing call (buffer too small): emits nothing
-    Fail { lab: Lab },
+    /// failing call: emits nothing.  long = false: buffer too small; long = true: PDU too long for
+    /// the 16-bit total length (a 65534-byte PDU with a 3/6-byte label, ample buffer)
+    Fail {
+        lab: Lab,
+        #[serde(default)]
+        long: bool,
+    },
     Reset,
     Disable,
     Enable,
@@ -46,12 +51,21 @@ fn run_ops(ops: &[Op], st: &mut Stats) -> Result<bool, String> {
         let (lab, mode, reps) = match *op {
             Op::Send { lab, mode } => (lab, mode, 1u32),
             Op::Burst { lab, n } => (lab, 0, n as u32),
-            Op::Fail { lab } => {
+            Op::Fail { lab, long } => {
                 a.disturbance = true;
-                let mut b = [0u8; 3];
-                match call_encap(&mut enc, &pdu_small, 1, 0x0800, lab, &mut b) {
+                let r = if long && lab.is_addr() {
+                    static LONG: std::sync::OnceLock<Vec<u8>> = std::sync::OnceLock::new();
+                    let pdu = LONG.get_or_init(|| vec![0x3Cu8; 65534]);
+                    let mut b = [0u8; 64];
+                    st.class("failed-call-pdu-too-long");
+                    call_encap(&mut enc, pdu, 1, 0x0800, lab, &mut b)
+                } else {
+                    let mut b = [0u8; 3];
+                    call_encap(&mut enc, &pdu_small, 1, 0x0800, lab, &mut b)
+                };
+                match r {
                     Ok(Err(_)) => {}
-                    o => return st.violation("fail-op-did-not-fail", format!("ops {:?} #{}: encap into a 3-byte buffer: {:?}", ops, i, o.map_err(|p| p.0))).map(|_| false),
+                    o => return st.violation("fail-op-did-not-fail", format!("ops {:?} #{}: failing encap: {:?}", ops, i, o.map_err(|p| p.0))).map(|_| false),
                 }
                 continue;
             }
@@ -163,26 +177,27 @@ fn alphabet(d: u64) -> Op {
         3 => Op::Send { lab: B3, mode: 0 },
         4 => Op::Send { lab: Lab::Broadcast, mode: 0 },
         5 => Op::Send { lab: Lab::ReUse, mode: 0 },
-        6 => Op::Fail { lab: A6 },
-        7 => Op::Fail { lab: B6 },
+        6 => Op::Fail { lab: A6, long: false },
+        7 => Op::Fail { lab: B6, long: false },
         8 => Op::Reset,
         9 => Op::Disable,
         10 => Op::Enable,
         11 => Op::Max(1),
         12 => Op::Max(2),
-        _ => Op::Max(255),
+        13 => Op::Max(255),
+        _ => Op::Fail { lab: B6, long: true },
     }
 }
 
 fn depth(t: Tier) -> u32 {
-    t.pick(6, 8)
+    t.pick(6, 7)
 }
 
 fn enum_decode(t: Tier, mut i: u64) -> Vec<Op> {
     let mut v = vec![];
     for _ in 0..depth(t) {
-        v.push(alphabet(i % 14));
-        i /= 14;
+        v.push(alphabet(i % 15));
+        i /= 15;
     }
     v
 }
@@ -211,7 +226,7 @@ fn rand_strategy(t: Tier) -> BoxedStrategy<RandCase> {
     let op = prop_oneof![
         8 => (lab.clone(), 0u8..3).prop_map(|(lab, mode)| Op::Send { lab, mode }),
         3 => (lab.clone(), prop_oneof![2 => 2u16..8, 1 => 200u16..300]).prop_map(|(lab, n)| Op::Burst { lab, n }),
-        3 => lab.prop_map(|lab| Op::Fail { lab }),
+        3 => (lab, any::<bool>()).prop_map(|(lab, long)| Op::Fail { lab, long }),
         1 => Just(Op::Reset),
         1 => Just(Op::Disable),
         1 => Just(Op::Enable),
@@ -231,17 +246,17 @@ fn check_rand(c: &RandCase, st: &mut Stats) -> Result<(), String> {
 pub fn property() -> Property {
     Property {
         id: "C15",
-        rule: "enumerated: every history of depth 6 (quick) / 8 (thorough) over 14 operations {successful encap with A6, B6, A3, B3, broadcast, explicit re-use; failing encap with A6 / B6; reset; disable; enable; enable-with-max 1, 2, 255}; generated: histories of up to 40/120 operations incl. bursts of 200..300 equal labels (so 255 consecutive re-uses and the counter at 255 are reached), max N in 0..=255, encap complete / first fragment / encap_ext mixed. oracle on the emitted start/complete packets (label type read from the wire): no substitution while disabled; never more than N consecutive substituted packets (N >= 1; audit counter reset at every settings change); first addressed packet after a reset or an emitted broadcast packet carries its full label; a substitution only when the preceding emitted start/complete packet effectively carried the identical label. non-trivial = history with >= 1 substitution and >= 1 of {failed call, settings change, reset, broadcast}",
+        rule: "enumerated: every history of depth 6 (quick) / 7 (thorough) over 15 operations {successful encap with A6, B6, A3, B3, broadcast, explicit re-use; failing encap with A6 / B6 (buffer too small) and B6 (PDU too long); reset; disable; enable; enable-with-max 1, 2, 255}; generated: histories of up to 40/120 operations incl. bursts of 200..300 equal labels (so 255 consecutive re-uses and the counter at 255 are reached), max N in 0..=255, encap complete / first fragment / encap_ext mixed. oracle on the emitted start/complete packets (label type read from the wire): no substitution while disabled; never more than N consecutive substituted packets (N >= 1; audit counter reset at every settings change); first addressed packet after a reset or an emitted broadcast packet carries its full label; a substitution only when the preceding emitted start/complete packet effectively carried the identical label. non-trivial = history with >= 1 substitution and >= 1 of {failed call, settings change, reset, broadcast}",
         assumptions: &["a packet for which the caller passed Label::ReUse is the caller's decision: neither counted in a run nor ending it"],
         parts: vec![
             Box::new(EnumPart {
                 name: "all-histories-bounded-depth",
-                rule: "14^depth histories",
-                size: |t| 14u64.pow(depth(t)),
+                rule: "15^depth histories",
+                size: |t| 15u64.pow(depth(t)),
                 exhaustive: |_| true,
                 check: check_enum,
                 describe: desc_enum,
-                required_classes: &["has-substitution"],
+                required_classes: &["has-substitution", "failed-call-pdu-too-long"],
             }),
             Box::new(GenPart {
                 name: "random-long-histories",
